@@ -149,3 +149,7 @@ V('C04', 'link-target-prop-not-updated-when-inherited', 'edb/schema/links.py',
   '        if not context.canonical:\n',
   "        if not context.canonical and not self.is_attribute_inherited('target'):\n",
   'C04.R11', 'target-prop-follows')
+
+# round 5: the stored seeded breaks this property's check reports, replayed as variants
+from sa.selftest import VP  # noqa
+VP('C04', 'C04-e3', 'C04.R12', 'delcanon-key')
